@@ -49,7 +49,8 @@ REQUIRED = ['tag:zone-single', 'tag:zone-range', 'tag:matrix-inline',
             'tag:matrix-block', 'tag:stage', 'tag:set-default',
             'tag:range-by-variable', 'tag:range-by-macro', 'tag:units-raw',
             'tag:units-rgb', 'ev:set_zone_color', 'ev:SetTileState64',
-            'tag:zone-on-non-multizone', 'tag:matrix-on-non-matrix']
+            'tag:zone-on-non-multizone', 'tag:matrix-on-non-matrix',
+            'tag:clause-sequences']
 
 
 def population(rng):
@@ -78,10 +79,68 @@ def population(rng):
     return descs
 
 
+def sequences(rng, pop):
+    """runs of zone / row-column statements on one device with every mix of
+    given, half-given and omitted clauses: what an omitted clause or end means
+    must not depend on the statement before it"""
+    mats = [d for d in pop if d['kind'] == 'matrix']
+    mzs = [d for d in pop if d['kind'] == 'mz']
+    prog = [['setreg', 'saturation', ['num', 80]],
+            ['setreg', 'brightness', ['num', 60]],
+            ['setreg', 'kelvin', ['num', 3000]]]
+    hue = [10]
+
+    def colour():
+        hue[0] = (hue[0] + rng.choice([17, 40, 95])) % 360
+        return ['setreg', 'hue', ['num', hue[0]]]
+
+    def rng_spec(ext, allow_none=True):
+        r = rng.random()
+        if allow_none and r < 0.35:
+            return None
+        a = rng.randrange(ext)
+        if r < 0.65:
+            return [['num', a], None]
+        return [['num', a], ['num', rng.randint(a, ext - 1)]]
+
+    def rc(h, w):
+        rows, cols = rng_spec(h), rng_spec(w)
+        if rows is None and cols is None:
+            if rng.random() < 0.5:
+                rows = rng_spec(h, False)
+            else:
+                cols = rng_spec(w, False)
+        return rows, cols, rng.choice(['rc', 'rc', 'cr'])
+    for _ in range(rng.randint(3, 8)):
+        prog.append(colour())
+        if mats and (not mzs or rng.random() < 0.7):
+            d = rng.choice(mats)
+            h, w = d['height'], d['width']
+            nx = ['str', d['label']]
+            if rng.random() < 0.5:
+                rows, cols, order = rc(h, w)
+                prog.append(['action', 'set', [['matrix', nx, rows, cols, order]]])
+            else:
+                body = []
+                for _ in range(rng.randint(1, 4)):
+                    if rng.random() < 0.6:
+                        body.append(colour())
+                    rows, cols, order = rc(h, w)
+                    body.append(['stage', rows, cols, order])
+                prog.append(['action', 'set', [['mblock', nx, body]]])
+        else:
+            d = rng.choice(mzs)
+            spec = rng_spec(d['zones'], False)
+            prog.append(['action', 'set', [['zone', ['str', d['label']],
+                                            spec[0], spec[1]]]])
+    return prog, {'clause-sequences'}, []
+
+
 def run_shard(ctx):
     n = N[ctx.tier]
     for i in range(ctx.shard, n, ctx.nshards):
-        out = progcheck.one_case(ctx, i, PROFILE, 'c15', pop_fn=population)
+        out = progcheck.one_case(ctx, i, PROFILE, 'c15', pop_fn=population,
+                                 prog_fn=sequences if i % 8 == 7 else None)
         if out is None:
             continue
         msgs = out.stats.get('ev:set_zone_color', 0) + \
